@@ -156,6 +156,12 @@ CATALOGUE = {
   (MF, "    outfile.write(struct.pack('>L', len(data)))", "    outfile.write(struct.pack('<L', len(data)))", C),
   (MF, "        if infile.tell() - start == size:", "        if infile.tell() - start >= size - 2:", C),
   (MF, "        if infile.tell() - start == size:", "        if infile.tell() - start >= size - 1:", S),
+  (MF, "        data = self.file.read(size)\n\n        for byte in data:", "        data = self.file.read(size)\n        self.file.read(0)\n        for byte in data[:1]:", C),
+  (MF, "        data = self.file.read(size)\n", "        data = self.file.read(size)[:2]\n", C),
+  (MF, "                                              clip=self.clip))", "                                              clip=False))", C),
+  (MF, "        self.clip = clip", "        self.clip = bool(debug)", C),
+  (MF, "        data = self.file.read(size)\n\n        for byte in data:\n            print_byte(byte, self.file.tell())\n\n        return data",
+       "        chunk = self.file.read(size)\n        pos = self.file.tell()\n        for value in chunk:\n            print_byte(value, pos)\n        return chunk", S),
  ],
  'C09': [
   (META, "        check_int(value, 0, 0xffffff)", "        check_int(value, 0, 0xfffffff)", C),
